@@ -273,6 +273,28 @@ func (v *Verifier) external(st *State, in *ssa.Call, fn *ssa.Function, args []*T
 			}
 			return set(v.mkSlice(st, SString, ts))
 		}
+		if pieces, ok := strPieces(args[0]); ok && args[1].Op == "str" && args[1].Str != "" && !hasDigit(args[1].Str) && args[2].IsInt() && args[2].Int64() == 2 {
+			// literal and decimal pieces: a digit-free separator can only occur inside one literal piece
+			v.assumeNote("strings.SplitN on literal/decimal concatenations: decided structurally (decimal renderings are non-empty digit strings)")
+			for i, pc := range pieces {
+				if pc.Op != "str" {
+					continue
+				}
+				if j := strings.Index(pc.Str, args[1].Str); j >= 0 {
+					before := StrLit("")
+					for _, q := range pieces[:i] {
+						before = strConcat(before, q)
+					}
+					before = strConcat(before, StrLit(pc.Str[:j]))
+					after := StrLit(pc.Str[j+len(args[1].Str):])
+					for _, q := range pieces[i+1:] {
+						after = strConcat(after, q)
+					}
+					return set(v.mkSlice(st, SString, []*Term{before, after}))
+				}
+			}
+			return set(v.mkSlice(st, SString, []*Term{args[0]}))
+		}
 	case "unicode.IsSpace":
 		if args[0].IsInt() {
 			return set(BoolLit(unicode.IsSpace(rune(args[0].Int64()))))
@@ -366,6 +388,27 @@ func decString(t *Term) (prefix string, d *Term, ok bool) {
 		return t.Args[0].Str, t.Args[1], true
 	}
 	return "", nil, false
+}
+
+// strPieces flattens a concatenation into string literals and dec(n) applications (nothing else).
+func strPieces(t *Term) ([]*Term, bool) {
+	switch {
+	case t.Op == "str":
+		return []*Term{t}, true
+	case t.Op == "app" && t.Str == "dec":
+		return []*Term{t}, true
+	case t.Op == "str.++":
+		var out []*Term
+		for _, a := range t.Args {
+			ps, ok := strPieces(a)
+			if !ok {
+				return nil, false
+			}
+			out = append(out, ps...)
+		}
+		return out, true
+	}
+	return nil, false
 }
 
 func hasDigit(s string) bool { return strings.ContainsAny(s, "0123456789") }
